@@ -999,7 +999,13 @@ def canon(tree: list) -> list:
                     if _same(a, b):
                         out.append(a)
                     else:
-                        out.append(If(n.cond, [a], [b], n.line))
+                        # the wider alternative first, whichever way round the test was written
+                        wa = a.bits if isinstance(a.bits, int) else -1
+                        wb = b.bits if isinstance(b.bits, int) else -1
+                        if wb > wa:
+                            out.append(If(negate_cond(n.cond), [b], [a], n.line))
+                        else:
+                            out.append(If(n.cond, [a], [b], n.line))
             else:
                 cond = n.cond
                 # canonical arm order when both arms carry something: the arm with more named fields first (then the
